@@ -1,8 +1,9 @@
+import TplModel.Props.Loader
 import TplModel.Props.RenderProps
 import TplModel.Props.C05refine
 /-! # C07 — fragments: define is invisible, insert wraps, replace substitutes
 
-OBLIGATIONS: RN.exec_refines_ref, RN.execute_refines, RN.Props.define_emits_nothing, RN.Props.replace_substitutes, RN.Props.insert_wraps, RN.Props.insert_no_children, RN.Props.unknown_name_is_tplNotFound, RN.Props.fragment_gets_fresh_conditions, RN.Props.fragment_independent_of_nc, RN.Props.fragment_depth_bounded
+OBLIGATIONS: RN.exec_refines_ref, RN.execute_refines, RN.Props.define_emits_nothing, RN.Props.replace_substitutes, RN.Props.insert_wraps, RN.Props.insert_no_children, RN.Props.unknown_name_is_tplNotFound, RN.Props.fragment_gets_fresh_conditions, RN.Props.fragment_independent_of_nc, RN.Props.fragment_depth_bounded, EN.loaded_manager_ok, EN.exec_refines_loaded, EN.addFile_lookup_stable, EN.addFile_appends, EN.loaded_names_nodup
 
 Fragments are executed by `RN.execFrag` on a fresh flag / condition state with the call-site scope; the refinement
 theorem covers them (hypothesis `TplOK`: every registered template has unique ids and sorted attributes, checked at
